@@ -31,6 +31,7 @@ type txnCtx struct {
 	first      bool // no filter call has been made yet (a leading Union intersects)
 	inited     bool
 	cleared    bool // a filter on a missing column truncated the selection
+	filtered   bool // some filter step ran in this transaction
 	thread     int
 	abort      bool // the body will end in an error
 	ttlPending bool
